@@ -74,7 +74,10 @@ class wind(PseudoNetCDFFile):
         record_size = rf.record_size
         while rf.record_size == record_size:
             lays += 1
-            rf.next()
+            if not rf.next():
+                # end of file inside the first time step: rf.next() does not
+                # move any more and this loop would never end
+                raise ValueError('wind file ends inside its first time step')
         self.__dummy_length = (rf.record_size + 8) // 4
         lays //= 2
         record = rows * cols * 4 + 8
